@@ -29,20 +29,20 @@ variable {cfg : Cfg} {l : List Int} {clock : Nat → Int}
 /-- **Window.** At the start of every loop iteration at most `window` packets are outstanding. -/
 theorem window_bound {st : St} (h : WF cfg) (hr : Reach cfg l clock st) :
     st.outs.length ≤ cfg.window := by
-  obtain ⟨H, hH⟩ := reach_inv h hr
+  obtain ⟨s0, H, hH⟩ := reach_inv h hr
   exact hH.win
 
 /-- **Window, fullest point.** Also right after the transmit loop (the fullest point inside an
 iteration) at most `window` packets are outstanding. -/
 theorem window_bound_fill {st : St} (h : WF cfg) (hr : Reach cfg l clock st) :
     (fill cfg (ext l) clock (cfg.window + 1) st).1.outs.length ≤ cfg.window := by
-  obtain ⟨H, hH⟩ := reach_inv h hr
+  obtain ⟨s0, H, hH⟩ := reach_inv h hr
   exact (fill_inv (P := fun _ => True) h (cfg.window + 1) st H _ _ hH rfl).win
 
 /-- **Distinct sequence numbers.** No two unanswered commands share a sequence number. -/
 theorem seqs_distinct {st : St} (h : WF cfg) (hr : Reach cfg l clock st) :
     (st.outs.map (·.1)).Nodup := by
-  obtain ⟨H, hH⟩ := reach_inv h hr
+  obtain ⟨s0, H, hH⟩ := reach_inv h hr
   exact hH.keys
 
 /-! ### a complete run from the start of a burst -/
@@ -163,6 +163,41 @@ theorem fatal_only_from_reply (h : WF cfg)
   obtain ⟨d, hd, h1⟩ := (run_top h hrun).2.2.2 rc c hres
   exact ⟨d, hd, h1⟩
 
+/-- **Distinct commands, distinct sequence numbers.** In a burst of at most `modulus` commands no
+two commands are ever transmitted with the same sequence number. -/
+theorem seq_injective (h : WF cfg) (hlen : l.length ≤ cfg.modulus)
+    (hrun : run cfg (ext l) clock (St.init s0) batches = (st, evs, res))
+    {s c c' k k' : Nat} {t t' : Int} :
+    Ev.send s c k t ∈ evs → Ev.send s c' k' t' ∈ evs → c = c' := by
+  intro h1 h2
+  have hI := (run_top h hrun).1
+  have e1 := hI.seq_val hlen _ _ _ _ h1
+  have e2 := hI.seq_val hlen _ _ _ _ h2
+  have b1 := (hI.send_ok _ _ _ _ h1).2.2
+  have b2 := (hI.send_ok _ _ _ _ h2).2.2
+  have := hI.next_le
+  exact seqVal_inj (m := cfg.modulus) (s0 := s0) (by omega) (by omega) (by rw [← e1, ← e2])
+
+/-- **Own reply, under freshness.** `origin` is ghost ground truth: the command of this burst whose
+request caused the datagram with that id (`none`: caused by an earlier burst).  If every reply
+carries its request's sequence number (`netOK`), the burst has at most `modulus` commands and no
+stale datagram carries a sequence number used in this burst (`fresh`), then every callback is
+called with a reply to its own command. -/
+theorem callback_own_reply (h : WF cfg)
+    (hrun : run cfg (ext l) clock (St.init s0) batches = (st, evs, res))
+    (origin : Nat → Option Nat)
+    (netOK : ∀ d ∈ batches.flatten, ∀ j, origin d.id = some j → ∃ t, Ev.send d.seq j 1 t ∈ evs)
+    (hlen : l.length ≤ cfg.modulus)
+    (fresh : ∀ d ∈ batches.flatten, origin d.id = none → ∀ c t, Ev.send d.seq c 1 t ∉ evs)
+    {c i : Nat} : Ev.callback c i ∈ evs → origin i = some c := by
+  intro hm
+  obtain ⟨d, hd, rfl, _, t, ht⟩ := callback_own_seq h hrun hm
+  cases ho : origin d.id with
+  | none => exact absurd ht (fresh d hd ho c t)
+  | some j =>
+    obtain ⟨t', ht'⟩ := netOK d hd j ho
+    rw [seq_injective h hlen hrun ht' ht]
+
 end run
 
 /-! ### fatal and retryable return codes (one step, no well-formedness needed) -/
@@ -245,6 +280,49 @@ theorem retryable_ignored (d : Dgram) (ds : List Dgram) (outs : List (Nat × Out
     rcases hx with hx | hx <;> simp [hx, rcOk]
   simp only [recvAll, e1, e2, if_true]
 
+/-! ### without freshness the own-reply clause fails: sequence-number wrap-around -/
+
+namespace Wrap
+def cfgW : Cfg := { window := 1, nTries := 3, modulus := 4, defaultTimeout := 2 }
+def lW : List Int := [0, 0, 0, 0, 0]
+def clockW : Nat → Int := fun k => k
+def okW (id seq : Nat) : Dgram := { id := id, rc := 128, seq := seq }
+/-- replies to commands 0..3, then a duplicate (id 20) of the reply to command 0 -/
+def batchesW : List (List Dgram) := [[okW 10 0], [okW 11 1], [okW 12 2], [okW 13 3], [okW 20 0], []]
+/-- ground truth: datagram 10 + j answers command j (j < 4), datagram 20 answers command 0 -/
+def originW : Nat → Option Nat := fun i => if i = 20 then some 0 else if i < 14 then some (i - 10) else none
+
+theorem run_eq : (run cfgW (ext lW) clockW (St.init 0) batchesW).2 =
+    ([.send 0 0 1 0, .send 1 1 1 3, .callback 0 10, .send 2 2 1 6, .callback 1 11, .send 3 3 1 9,
+      .callback 2 12, .send 0 4 1 12, .callback 3 13, .callback 4 20], .done) := by decide
+end Wrap
+
+open Wrap in
+/-- **Counterexample (sequence wrap).** Modulus 4, window 1, five commands: commands 0 and 4 both
+get sequence number 0.  Every reply carries its request's sequence number (`netOK` holds), but a
+duplicate of the reply to command 0 (id 20), delivered while command 4 is outstanding, is accepted
+as the reply to command 4: its callback is called with a foreign reply and the burst returns
+normally.  So `callback_own_reply` needs `l.length ≤ cfg.modulus`.  (With the real 16-bit sequence
+numbers this takes 65,537 commands: the known finding `seq-wrap`.) -/
+theorem own_reply_wrap_counterexample :
+    ∃ (cfg : Cfg) (l : List Int) (clock : Nat → Int) (s0 : Nat) (batches : List (List Dgram))
+      (origin : Nat → Option Nat) (st : St) (evs : List Ev) (res : Res),
+      WF cfg ∧ l.length = cfg.modulus + 1 ∧
+      run cfg (ext l) clock (St.init s0) batches = (st, evs, res) ∧ res = .done ∧
+      (∀ d ∈ batches.flatten, ∀ j, origin d.id = some j → ∃ t, Ev.send d.seq j 1 t ∈ evs) ∧
+      ∃ c i, Ev.callback c i ∈ evs ∧ origin i ≠ some c := by
+  refine ⟨cfgW, lW, clockW, 0, batchesW, originW,
+    (run cfgW (ext lW) clockW (St.init 0) batchesW).1,
+    (run cfgW (ext lW) clockW (St.init 0) batchesW).2.1,
+    (run cfgW (ext lW) clockW (St.init 0) batchesW).2.2,
+    by unfold WF; decide, rfl, rfl, ?_, ?_, 4, 20, ?_, by decide⟩
+  · rw [run_eq]
+  · intro d hd j hj
+    rw [run_eq]
+    simp [batchesW, okW] at hd
+    rcases hd with rfl | rfl | rfl | rfl | rfl <;> simp [originW] at hj <;> subst hj <;> simp
+  · rw [run_eq]; decide
+
 /-! ### non-vacuity: a concrete burst with loss, a retryable code, a duplicate reply,
 retransmissions and callbacks satisfies the hypotheses and exercises every clause -/
 
@@ -277,6 +355,37 @@ example : (run cfgX (ext lX) clockX (St.init 1)
 /-- a reachable state with a full window -/
 example : ∃ st, Reach cfgX lX clockX st ∧ st.outs.length = cfgX.window :=
   ⟨_, Reach.step _ [] (Reach.init 1) (by decide) (by decide), by decide⟩
+
+
+/-- `batchesX` followed by a stale datagram of an earlier burst (id 15, sequence number 0, which
+this burst does not use) -/
+def batchesY : List (List Dgram) := batchesX ++ [[okD 15 0]]
+/-- ground truth for `batchesY`: 10 and its duplicate 13 answer command 0, 11 (retryable code) and
+12 answer command 1, 14 answers command 2, 15 is stale -/
+def originY : Nat → Option Nat := fun i =>
+  if i = 10 ∨ i = 13 then some 0 else if i = 11 ∨ i = 12 then some 1 else if i = 14 then some 2 else none
+
+theorem runY_eq : (run cfgX (ext lX) clockX (St.init 1) batchesY).2.1 =
+    [.send 1 0 1 0, .send 2 1 1 1, .send 1 0 2 3, .send 2 1 2 5, .send 3 2 1 6,
+      .callback 0 10, .send 3 2 2 10, .callback 1 12, .callback 2 14] := by decide
+
+/-- the hypotheses of `callback_own_reply` (`netOK`, at most `modulus` commands, `fresh`) are
+satisfied by a run with retransmissions, a duplicate reply, a stale datagram and callbacks -/
+example :
+    (∀ d ∈ batchesY.flatten, ∀ j, originY d.id = some j →
+      ∃ t, Ev.send d.seq j 1 t ∈ (run cfgX (ext lX) clockX (St.init 1) batchesY).2.1) ∧
+    lX.length ≤ cfgX.modulus ∧
+    (∀ d ∈ batchesY.flatten, originY d.id = none →
+      ∀ c t, Ev.send d.seq c 1 t ∉ (run cfgX (ext lX) clockX (St.init 1) batchesY).2.1) ∧
+    Ev.callback 1 12 ∈ (run cfgX (ext lX) clockX (St.init 1) batchesY).2.1 := by
+  rw [runY_eq]
+  refine ⟨?_, by decide, ?_, by decide⟩
+  · intro d hd j hj
+    simp [batchesY, batchesX, okD] at hd
+    rcases hd with rfl | rfl | rfl | rfl | rfl | rfl <;> simp [originY] at hj <;> subst hj <;> simp
+  · intro d hd hn c t
+    simp [batchesY, batchesX, okD] at hd
+    rcases hd with rfl | rfl | rfl | rfl | rfl | rfl <;> simp [originY] at hn <;> simp
 end Example
 
 end Rig.C06
